@@ -20,7 +20,7 @@ import (
 func init() {
 	register(&explore.Prop{
 		ID: "C12", Level: levelFE, Explorer: "E3 environment-answer enumerator",
-		Rule: "workloads = every list of 1..2 segments over a small kinds alphabet with every deletion set (public Merge(...).WriteTo) + a 130-document two-block workload with doc values + Segment.WriteTo of built, loaded-from-memory and loaded-from-file segments; for each workload the destination writer fails at EVERY byte offset k in [0,len], in four variants (accepts exactly k bytes / rejects the crossing write whole) x (fail-stop: every later write fails too / transient: only that one write fails), x merge buffer sizes {0 (default),1,2,3,7,16,64,4096,1<<20}; cancellation: close channel closed before the call and closed at the moment the writer has received t bytes for EVERY t in [0,len] (buffer size 1 makes every write a boundary; also 16 and 4096), and - on the instrumented build - closed immediately before EVERY poll of the channel (every `select` the merge executes, by index); " +
+		Rule: "workloads = every list of 1..2 segments over a small kinds alphabet with every deletion set (public Merge(...).WriteTo) + a 130-document two-block workload with doc values + Segment.WriteTo of built, loaded-from-memory and loaded-from-file segments; for each workload the destination writer fails at EVERY byte offset k in [0,len], in four variants (accepts exactly k bytes / rejects the crossing write whole) x (fail-stop: every later write fails too / transient: only that one write fails), x merge buffer sizes {0 (default),1,2,3,7,16,64,4096,1<<20}; cancellation: close channel closed before the call and closed at the moment the writer has received t bytes for EVERY t in [0,len] (buffer size 1 makes every write a boundary; also 16 and 4096), and - on the instrumented build - closed immediately before EVERY poll of the channel (every `select` the merge executes, by index; for one further workload - a 9300-document segment whose ten doc-value chunks are walked at the very end of the merge - before each of the first 64 and the last 256 polls); " +
 			"oracle: writer reported an error => non-nil error; closed => ErrClosed or (nil error and bytes == fault-free file and n == len); one deviation per run, runs go to completion; distinct = (workload, fault kind, k, buffer size); non-trivial = the injected fault was actually hit",
 		Assumptions: []string{"bounded workloads (DESIGN.md 5 C12)", "writer models: fail-stop and single transient failure; a writer that returns n < len(p) with a nil error (a violation of the io.Writer contract) is not modelled", "cancellation from another goroutine at every scheduling point is explored separately (C12 thorough, E4) when the instrumented build is available"},
 		Budget:      qBudget, Run: runC12,
@@ -81,6 +81,9 @@ type c12Workload struct {
 	run      func(w *faultWriter, ch chan struct{}, bufSize int) (int64, error)
 	bufSizes []int
 	isMerge  bool
+	// pollsOnly: a large workload that takes part in the poll-index sweep only, and there with the
+	// channel closed before each of the first 64 and the last 256 polls
+	pollsOnly bool
 }
 
 func mergeWorkload(name string, segs []segment.Segment, drops []*roaring.Bitmap) c12Workload {
@@ -165,6 +168,22 @@ func c12Workloads(c *explore.Ctx) (out []c12Workload, cleanup func()) {
 	}
 	small, _ := build([]model.Doc{gen.MixDoc(2, "z", 0), gen.MixDoc(4, "z", 1)}, 1025)
 	out = append(out, mergeWorkload("merge-130docs+2", []segment.Segment{bs, small}, []*roaring.Bitmap{bitmapOf(1, 7, 127), nil}))
+	// 9300 documents with doc values in the alphabetically last field, after a small segment: ten
+	// doc-value chunks are walked at the very end of the merge (poll sweep only)
+	{
+		huge := make([]model.Doc, 9300)
+		for i := range huge {
+			huge[i] = model.Doc{gen.IDField("y", i), {N: "zz", Len: 1, DV: true, Terms: []model.Term{{T: fmt.Sprintf("v%d", i%13), Freq: 1}}}}
+		}
+		hs, err := build(huge, 1025)
+		if err != nil {
+			panic(err)
+		}
+		first, _ := build([]model.Doc{{gen.IDField("w", 0), {N: "zz", Len: 1, DV: true, Terms: []model.Term{{T: "v1", Freq: 1}}}}, {gen.IDField("w", 1)}}, 1025)
+		w := mergeWorkload("merge-2+9300docs-dv-last", []segment.Segment{first, hs}, []*roaring.Bitmap{nil, bitmapOf(5)})
+		w.pollsOnly = true
+		out = append(out, w)
+	}
 	// persist workloads
 	out = append(out, persistWorkload("persist-built-small", small))
 	out = append(out, persistWorkload("persist-built-130", bs))
@@ -208,6 +227,9 @@ func runC12(c *explore.Ctx) {
 		c.R.Notes = append(c.R.Notes, "poll-index cancellation sweep skipped: not the instrumented build")
 	}
 	for wi, wl := range wls {
+		if wl.pollsOnly {
+			continue
+		}
 		scope := fmt.Sprintf("WL%d", wi)
 		// fault-free reference
 		ref := &faultWriter{failAt: -1, closeAt: -1}
